@@ -16,12 +16,21 @@ share a mutable state object by construction — on the implementation that is s
 Game flow: `startGame`, `addPlayer`, `drain` (ball end: extra ball → same player again; else next player / next
 ball / game over), `endGame`; `dev d code` sends control event `code` to device `d`, `swap d1 d2` is a two-shot
 shot-group rotation.
+
+Time: `wait n` lets `n` time units pass.  What a device keeps in the device object itself rather than in the player
+(`Loc`: for a timer whether it runs, the time to its next tick, the time to the end of a timed pause) is created when
+the mode starts (`loc0`) and only ever used while the mode runs (`tick`, `act`); while no mode runs time changes nothing.
+The game mode starts with every ball (`autoStart`) or only by request (`modeStart`).  List-valued progress (an accrual)
+is `Val.ablk`, an immutable copy per player.  `setP` / `addP` are `variable_player` entries with an explicit `player:`,
+`setMachine` / `addMachine` the machine-scope ones (`St.machine`, owned by nobody).
 -/
 namespace MpfVerif.Player
 
 inductive Val
   | int (i : Int) | str (s : String) | bool (b : Bool)
-  | blk (value : Int) (enabled completed : Bool)     -- a LogicBlockState object
+  | blk (value : Int) (enabled completed : Bool)     -- a LogicBlockState object (counter, sequence)
+  | ablk (value : List Bool) (enabled completed : Bool)   -- a LogicBlockState object whose value is a list (accrual):
+                                                     -- an immutable copy here, one list object per player there
   deriving DecidableEq, Repr
 
 abbrev Vars := List (String × Val)
@@ -45,7 +54,7 @@ def isScalar : Val → Bool
   | .int _ => true | .str _ => true | _ => false
 
 def truthy : Val → Bool
-  | .int i => i != 0 | .str s => s != "" | .bool b => b | .blk .. => true
+  | .int i => i != 0 | .str s => s != "" | .bool b => b | .blk .. => true | .ablk .. => true
 
 /-- `value - prev_value`, or `prev_value != value` when that raises TypeError -/
 def changeOf (v prev : Val) : Val :=
@@ -60,29 +69,48 @@ def setVar (m : Vars) (num : Nat) (k : String) (v : Val) : Vars × List Ev :=
   let ch := changeOf v prev
   (put m k v, if (truthy ch || isNew) && isScalar v then [⟨k, v, prev, ch, num⟩] else [])
 
+/-- what a device keeps in the device object itself (not in the player): for a timer whether it runs, the time units
+until its next tick and until a timed pause ends (0 = no resume pending).  Created by `loc0` when the mode starts and
+meaningless once the mode has stopped. -/
+structure Loc where
+  run : Bool := false
+  next : Nat := 0
+  pause : Nat := 0
+  deriving DecidableEq, Repr
+
 /-- a persisting game-mode device, abstractly -/
 structure Dev where
   key : String                 -- the player variable its state lives under
   fresh : Val                  -- state of a player who never had it
   load : Val → Val             -- what the device makes of the stored state when the mode (re)starts
-  act : Nat → Val → Val        -- reaction to control event number `code`
+  act : Nat → Loc → Val → Loc × Val     -- reaction to control event number `code`
+  tick : Loc → Val → Loc × Val := fun l v => (l, v)    -- one time unit passes while the mode runs
+  loc0 : Loc := {}             -- the device-local state when the mode starts
 
 structure Cfg where
   initVars : List (String × Val) := []     -- player_vars section: (name, initial value)
   ballsPerGame : Nat := 3
   maxPlayers : Nat := 4
   devs : List Dev := []
+  autoStart : Bool := true                 -- the game mode has `ball_started` among its start events
 
 structure St where
   players : List Vars := []
   cur : Nat := 0                 -- index of the current player (meaningful while `players ≠ []`)
   dev : Option Nat := none       -- the game mode is running and its devices point into this player's dictionary
+  locs : List Loc := []          -- device-local state, one entry per device (meaningful while `dev ≠ none`)
+  machine : Vars := []           -- machine variables (not owned by any player)
   deriving Repr
 
 inductive Op
   | startGame | addPlayer
   | set (k : String) (v : Val)       -- player[k] = v on the current player (also variable_player action: set)
   | add (k : String) (d : Int)       -- variable_player action: add (int)
+  | setP (p : Nat) (k : String) (v : Val)   -- variable_player `action: set` with an explicit `player:` (p = index)
+  | addP (p : Nat) (k : String) (d : Int)   -- variable_player `action: add` with an explicit `player:`
+  | setMachine (k : String) (v : Val)       -- variable_player `action: set_machine`
+  | addMachine (k : String) (d : Int)       -- variable_player `action: add_machine`
+  | wait (n : Nat)                   -- `n` time units pass (timers of the running game mode tick / resume from pauses)
   | dev (d : Nat) (code : Nat)       -- control event `code` for device number `d`
   | swap (d1 d2 : Nat)               -- shot group rotation over two shots: their states change places
   | drain | endGame
@@ -123,23 +151,51 @@ def loadAll : List Dev → Vars → Vars
   | [], m => m
   | d :: r, m => loadAll r (put m d.key (match get m d.key with | some v => d.load v | none => d.fresh))
 
-/-- the game mode starts with player `i`'s ball -/
+def intVar (m : Vars) (k : String) : Int := match get m k with | some (.int b) => b | _ => 0
+
+/-- the game mode starts for player `i` -/
 def modeStart (c : Cfg) (s : St) (i : Nat) : St :=
-  { s with dev := some i, players := modify s.players i (loadAll c.devs) }
+  { s with dev := some i, players := modify s.players i (loadAll c.devs), locs := c.devs.map (·.loc0) }
+
+/-- the ball starts: the game mode starts with it when `ball_started` is among its start events -/
+def ballStart (c : Cfg) (s : St) (i : Nat) : St := if c.autoStart then modeStart c s i else s
 
 /-- a player's turn starts: `ball += 1`, then the ball (and with it the game mode) starts -/
 def turnStart (c : Cfg) (s : St) (i : Nat) : St × List Ev :=
-  let ball := match get (varsOf s i) "ball" with | some (.int b) => b | _ => 0
-  let r := setOn { s with cur := i } i "ball" (.int (ball + 1))
-  (modeStart c r.1 i, r.2)
+  let r := setOn { s with cur := i } i "ball" (.int (intVar (varsOf s i) "ball" + 1))
+  (ballStart c r.1 i, r.2)
 
-def intVar (m : Vars) (k : String) : Int := match get m k with | some (.int b) => b | _ => 0
+def setAt : List Loc → Nat → Loc → List Loc
+  | [], _, _ => []
+  | _ :: r, 0, l => l :: r
+  | x :: r, i + 1, l => x :: setAt r i l
+
+/-- one time unit passes for every device of the running mode (in device order) -/
+def tickDevs : List Dev → List Loc → Vars → List Loc × Vars
+  | [], _, m => ([], m)
+  | d :: ds, ls, m =>
+    match get m d.key with
+    | some v =>
+      let r := d.tick (ls.headD {}) v
+      let rest := tickDevs ds ls.tail (put m d.key r.2)
+      (r.1 :: rest.1, rest.2)
+    | none =>
+      let rest := tickDevs ds ls.tail m
+      (ls.headD {} :: rest.1, rest.2)
+
+def elapse (devs : List Dev) : Nat → List Loc → Vars → List Loc × Vars
+  | 0, ls, m => (ls, m)
+  | n + 1, ls, m => let r := tickDevs devs ls m; elapse devs n r.1 r.2
+
+/-- the player a `variable_player` entry with `player: p+1` writes to: that player, or - as the code has it - the
+current player when there is no such player (IndexError is only logged) -/
+def targetOf (s : St) (p : Nat) : Nat := if p < s.players.length then p else s.cur
 
 def step (c : Cfg) (s : St) : Op → St × List Ev
   | .startGame =>
     if s.players ≠ [] then (s, []) else
     let m := newVars c 0
-    let r := turnStart c { players := [m], cur := 0, dev := none } 0
+    let r := turnStart c { s with players := [m], cur := 0, dev := none } 0
     (r.1, broadcast m 1 ++ r.2)
   | .addPlayer =>
     let n := s.players.length
@@ -152,13 +208,36 @@ def step (c : Cfg) (s : St) : Op → St × List Ev
     match (get (varsOf s s.cur) k).getD (.int 0) with
     | .int a => setOn s s.cur k (.int (a + d))
     | _ => (s, [])
+  | .setP p k v => if s.players = [] then (s, []) else setOn s (targetOf s p) k v
+  | .addP p k d =>
+    if s.players = [] then (s, []) else
+    match (get (varsOf s (targetOf s p)) k).getD (.int 0) with
+    | .int a => setOn s (targetOf s p) k (.int (a + d))
+    | _ => (s, [])
+  | .setMachine k v => if s.players = [] then (s, []) else ({ s with machine := put s.machine k v }, [])
+  | .addMachine k d =>
+    if s.players = [] then (s, []) else
+    match (get s.machine k).getD (.int 0) with
+    | .int a => ({ s with machine := put s.machine k (.int (a + d)) }, [])
+    | _ => (s, [])
+  | .wait n =>
+    match s.dev with
+    | none => (s, [])                                -- no game mode runs: nothing of any player changes with time
+    | some p =>
+      let r := elapse c.devs n s.locs (varsOf s p)
+      ({ s with players := modify s.players p (fun _ => r.2), locs := r.1 }, [])
   | .dev d code =>
     match s.dev with
     | none => (s, [])
-    | some p => ({ s with players := modify s.players p (fun m =>
-        match c.devs[d]? with
-        | some dv => (match get m dv.key with | some v => put m dv.key (dv.act code v) | none => m)
-        | none => m) }, [])
+    | some p =>
+      match c.devs[d]? with
+      | none => (s, [])
+      | some dv =>
+        match get (varsOf s p) dv.key with
+        | none => (s, [])
+        | some v =>
+          let r := dv.act code (s.locs.getD d {}) v
+          ({ s with players := modify s.players p (fun m => put m dv.key r.2), locs := setAt s.locs d r.1 }, [])
   | .swap d1 d2 =>
     match s.dev with
     | none => (s, [])
@@ -175,11 +254,11 @@ def step (c : Cfg) (s : St) : Op → St × List Ev
     let me := varsOf s0 s0.cur
     if intVar me "extra_balls" ≠ 0 then
       let r := setOn s0 s0.cur "extra_balls" (.int (intVar me "extra_balls" - 1))
-      (modeStart c r.1 s0.cur, r.2)                -- shoot again: same player, `ball` not incremented
+      (ballStart c r.1 s0.cur, r.2)                -- shoot again: same player, `ball` not incremented
     else if intVar me "ball" ≥ c.ballsPerGame ∧ s0.cur + 1 = s0.players.length then
-      ({ players := [], cur := 0, dev := none }, [])
+      ({ s with players := [], cur := 0, dev := none }, [])
     else turnStart c s0 (if s0.cur + 1 < s0.players.length then s0.cur + 1 else 0)
-  | .endGame => ({ players := [], cur := 0, dev := none }, [])
+  | .endGame => ({ s with players := [], cur := 0, dev := none }, [])
   | .modeStop => ({ s with dev := none }, [])
   | .modeStart =>
     if s.players = [] then (s, [])                 -- no game: refused
@@ -193,7 +272,7 @@ def step (c : Cfg) (s : St) : Op → St × List Ev
     if intVar me "extra_balls" ≠ 0 then
       setOn s0 s0.cur "extra_balls" (.int (intVar me "extra_balls" - 1))     -- still running: no reload
     else if intVar me "ball" ≥ c.ballsPerGame ∧ s0.cur + 1 = s0.players.length then
-      ({ players := [], cur := 0, dev := none }, [])
+      ({ s with players := [], cur := 0, dev := none }, [])
     else turnStart c { s0 with dev := none } (if s0.cur + 1 < s0.players.length then s0.cur + 1 else 0)
 
 def run (c : Cfg) : St → List Op → St
@@ -223,12 +302,13 @@ def hexOfNat (n : Nat) : Char := if n < 10 then Char.ofNat (48 + n) else Char.of
 def hexStr (s : String) : String :=
   String.ofList (s.toList.flatMap (fun c => [hexOfNat (c.toNat / 16), hexOfNat (c.toNat % 16)]))
 
-/-- value tokens: i<int>  s<hex>  T / F  b<value>/<enabled>/<completed> -/
+/-- value tokens: i<int>  s<hex>  T / F  b<value>/<enabled>/<completed>  a<bits>/<enabled>/<completed> -/
 def showVal : Val → String
   | .int i => s!"i{i}"
   | .str s => "s" ++ hexStr s
   | .bool true => "T" | .bool false => "F"
   | .blk v e co => s!"b{v}/{if e then 1 else 0}/{if co then 1 else 0}"
+  | .ablk v e co => s!"a{String.ofList (v.map (fun b => if b then '1' else '0'))}/{if e then 1 else 0}/{if co then 1 else 0}"
 
 def parseVal (t : String) : Option Val :=
   match t.toList with
@@ -250,7 +330,11 @@ def showOut (r : St × List Ev) : String :=
   let s := r.1
   let g := if s.players = [] then "-" else toString (s.cur + 1)
   let up := match s.dev with | some p => toString (p + 1) | none => "-"
-  s!"cur={g} mode={up} ev=[{" ".intercalate (r.2.map showEv)}] pl=[{"|".intercalate (s.players.map showVars)}]"
+  let rn := match s.dev with
+    | some _ => String.ofList (s.locs.map (fun (l : Loc) => if l.run then '1' else '0'))
+    | none => "-"
+  let mv := match get s.machine "mvar" with | some v => showVal v | none => "-"
+  s!"cur={g} mode={up} run={rn} mv={mv} ev=[{" ".intercalate (r.2.map showEv)}] pl=[{"|".intercalate (s.players.map showVars)}]"
 
 def parseInit : List String → Option (List (String × Val))
   | [] => some []
@@ -276,26 +360,131 @@ def achAct (code : Nat) (v : Val) : Val :=
   | 5, _ => .str "disabled"
   | _, x => x
 
+/-- `LogicBlock.reset` / `restart` (codes `r` / `r+1` of a block with `r` steps): completion cleared, value back to the
+start value (a new list for an accrual); `restart` also enables -/
+def blkReset (start : Val) (enable : Bool) : Val → Val
+  | .blk _ e _ => match start with
+    | .blk v0 _ _ => .blk v0 (e || enable) false
+    | x => x
+  | .ablk _ e _ => match start with
+    | .ablk v0 _ _ => .ablk v0 (e || enable) false
+    | x => x
+  | x => x
+
+def setBit : List Bool → Nat → List Bool
+  | [], _ => []
+  | _ :: r, 0 => true :: r
+  | x :: r, i + 1 => x :: setBit r i
+
+/-- `Accrual.hit(step)` (`reset_on_complete: false`, `disable_on_complete: true`) -/
+def accHit (step : Nat) : Val → Val
+  | .ablk v true co =>
+    let v' := setBit v step
+    if v'.all id then (if co then .ablk v' true co else .ablk v' false true) else .ablk v' true co
+  | x => x
+
+/-- `Sequence.hit(step)` with `n` steps -/
+def seqHit (n : Nat) (step : Nat) : Val → Val
+  | .blk v true co =>
+    if v = step then
+      (if v + 1 ≥ n then (if co then .blk (v + 1) true co else .blk (v + 1) false true) else .blk (v + 1) true co)
+    else .blk v true co
+  | x => x
+
+/-! ### the timer (`mpf/devices/timer.py`, direction up): ticks in the player variable, run / next tick / pause locally -/
+
+structure TimerCfg where
+  start : Int
+  startRunning : Bool
+  endValue : Option Int      -- `end_value`
+  interval : Nat             -- tick interval in time units
+  pauseUnits : Nat           -- length of the timed pause of control event 5
+
+def tmStopped : Loc := { run := false, next := 0, pause := 0 }
+
+/-- `_check_for_done`: at or past the end value the timer completes and stops (`restart_on_complete: false`) -/
+def tmChk (t : TimerCfg) (l : Loc) (v : Int) : Loc × Val :=
+  match t.endValue with
+  | some e => if v ≥ e then (tmStopped, .int v) else (l, .int v)
+  | none => (l, .int v)
+
+/-- `Timer.start` -/
+def tmStart (t : TimerCfg) (l : Loc) (v : Int) : Loc :=
+  if l.run then l else
+  match t.endValue with
+  | some e => if v ≥ e then tmStopped else { run := true, next := t.interval, pause := 0 }
+  | none => { run := true, next := t.interval, pause := 0 }
+
+/-- control events: 0 add 2, 1 jump 7, 2 subtract 1, 3 start, 4 stop, 5 pause (timed), 6 pause (until started),
+7 reset, 8 restart -/
+def tmAct (t : TimerCfg) (code : Nat) (l : Loc) : Val → Loc × Val
+  | .int v =>
+    match code with
+    | 0 => tmChk t l (v + 2)
+    | 1 => tmChk t { l with next := t.interval } 7
+    | 2 => tmChk t l (v - 1)
+    | 3 => (tmStart t l v, .int v)
+    | 4 => (tmStopped, .int v)
+    | 5 => ({ run := false, next := 0, pause := t.pauseUnits }, .int v)
+    | 6 => ({ run := false, next := 0, pause := l.pause }, .int v)
+    | 7 => tmChk t { l with next := t.interval } t.start
+    | 8 =>
+      let r := tmChk t { l with next := t.interval } t.start
+      (tmStart t r.1 t.start, r.2)
+    | _ => (l, .int v)
+  | x => (l, x)
+
+/-- one time unit: a pending resume comes closer and fires `start`; a running timer comes closer to its next tick -/
+def tmTick (t : TimerCfg) (l : Loc) : Val → Loc × Val
+  | .int v =>
+    if l.pause > 0 then
+      if l.pause = 1 then (tmStart t { l with pause := 0 } v, .int v) else ({ l with pause := l.pause - 1 }, .int v)
+    else if l.run then
+      if l.next ≤ 1 then tmChk t { l with next := t.interval } (v + 1) else ({ l with next := l.next - 1 }, .int v)
+    else (l, .int v)
+  | x => (l, x)
+
+def timerDev (key : String) (t : TimerCfg) : Dev :=
+  { key := key, fresh := .int t.start, load := fun _ => .int t.start, act := tmAct t, tick := tmTick t,
+    loc0 := if t.startRunning then tmStart t {} t.start else {} }
+
+/-- a device without local state -/
+def plainDev (key : String) (fresh : Val) (load : Val → Val) (act : Nat → Val → Val) : Dev :=
+  { key := key, fresh := fresh, load := load, act := fun code l v => (l, act code v) }
+
 /-- the device kinds of the correspondence run -/
 def mkDev : List String → Option Dev
   | ["counter", key, goal] => do
     let g ← goal.toInt?
-    pure ⟨key, .blk 0 true false, id, fun code v => if code = 0 then countBlk g v else v⟩
+    pure (plainDev key (.blk 0 true false) id fun code v => if code = 0 then countBlk g v else v)
   | ["shot", key, n] => do
     let k ← n.toNat?
-    pure ⟨key, .int 0, id, fun code v => match code, v with
+    pure (plainDev key (.int 0) id fun code v => match code, v with
       | 0, .int s => if s + 1 < k then .int (s + 1) else .int s
       | 1, _ => .int 0
-      | _, x => x⟩
-  | ["flag", key] => some ⟨key, .bool false, id, fun code v => if code = 0 then .bool true else if code = 1 then .bool false else v⟩
+      | _, x => x)
+  | ["flag", key] => some (plainDev key (.bool false) id
+      fun code v => if code = 0 then .bool true else if code = 1 then .bool false else v)
   | ["ach", key, restart] =>
-    some ⟨key, .str "disabled", (fun v => if restart = "0" ∧ v = .str "started" then .str "stopped" else v), achAct⟩
-  | ["timer", key, start] => do
+    some (plainDev key (.str "disabled") (fun v => if restart = "0" ∧ v = .str "started" then .str "stopped" else v) achAct)
+  | ["accrual", key, n] => do
+    let k ← n.toNat?
+    let start := Val.ablk (List.replicate k false) true false
+    pure (plainDev key start id fun code v =>
+      if code < k then accHit code v else if code = k then blkReset start false v
+      else if code = k + 1 then blkReset start true v else v)
+  | ["sequence", key, n] => do
+    let k ← n.toNat?
+    let start := Val.blk 0 true false
+    pure (plainDev key start id fun code v =>
+      if code < k then seqHit k code v else if code = k then blkReset start false v
+      else if code = k + 1 then blkReset start true v else v)
+  | ["timer", key, start, run, endv, interval, pause] => do
     let st ← start.toInt?
-    pure ⟨key, .int st, fun _ => .int st, fun code v => match code, v with
-      | 0, .int t => .int (t + 2)
-      | 1, _ => .int 7
-      | _, x => x⟩
+    let e ← endv.toInt?
+    let iv ← interval.toNat?
+    let pu ← pause.toNat?
+    pure (timerDev key ⟨st, run = "1", if e < 0 then none else some e, iv, pu⟩)
   | _ => none
 
 def parseOp : List String → Option Op
@@ -304,6 +493,11 @@ def parseOp : List String → Option Op
   | ["set", k, v] => (parseVal v).map (.set k)
   | ["add", k, d] => d.toInt?.map (.add k)
   | ["dev", d, code] => do pure (.dev (← d.toNat?) (← code.toNat?))
+  | ["setp", p, k, v] => do pure (.setP (← p.toNat?) k (← parseVal v))
+  | ["addp", p, k, d] => do pure (.addP (← p.toNat?) k (← d.toInt?))
+  | ["setmachine", k, v] => (parseVal v).map (.setMachine k)
+  | ["addmachine", k, d] => d.toInt?.map (.addMachine k)
+  | ["wait", n] => n.toNat?.map .wait
   | ["swap", a, b] => do pure (.swap (← a.toNat?) (← b.toNat?))
   | ["drain"] => some .drain
   | ["endgame"] => some .endGame
@@ -312,19 +506,30 @@ def parseOp : List String → Option Op
   | ["drainpre"] => some .drainPre
   | _ => none
 
+/-- the harness lets one time unit pass after every request -/
+def stepW (c : Cfg) (s : St) (ops : List Op) : St × List Ev :=
+  match ops with
+  | [] => step c s (.wait 1)
+  | op :: rest => let r := step c s op; let r2 := stepW c r.1 rest; (r2.1, r.2 ++ r2.2)
+
 def driverStep (cs : Cfg × St) (line : String) : (Cfg × St) × String :=
   match line.splitOn " " with
-  | "cfg" :: bpg :: mp :: rest =>
+  | "cfg" :: bpg :: mp :: auto :: rest =>
     match bpg.toNat?, mp.toNat?, parseInit rest with
-    | some b, some m, some iv => (({ initVars := iv, ballsPerGame := b, maxPlayers := m }, {}), "ok")
+    | some b, some m, some iv =>
+      (({ initVars := iv, ballsPerGame := b, maxPlayers := m, autoStart := auto = "1" }, {}), "ok")
     | _, _, _ => (cs, "bad-op")
   | "device" :: rest =>
     match mkDev rest with
     | some d => (({ cs.1 with devs := cs.1.devs ++ [d] }, cs.2), "ok")
     | none => (cs, "bad-op")
+  | ["drainpost"] =>                      -- a drain during which a start request arrives when the next player is up
+    let r := stepW cs.1 cs.2 [.drain, .modeStart]; ((cs.1, r.1), showOut r)
+  | ["drainposthold"] =>                  -- ... and the queue event at which it arrived is held for one time unit
+    let r := stepW cs.1 cs.2 [.drain, .modeStart, .wait 1]; ((cs.1, r.1), showOut r)
   | toks =>
     match parseOp toks with
-    | some op => let r := step cs.1 cs.2 op; ((cs.1, r.1), showOut r)
+    | some op => let r := stepW cs.1 cs.2 [op]; ((cs.1, r.1), showOut r)
     | none => (cs, "bad-op")
 
 def driverInit : Cfg × St := ({}, {})
